@@ -162,6 +162,14 @@ def r09_3(ctx: Ctx) -> None:
         bypass = cfg.reaches(body, dn, avoid=[q.node_for(f, c) for c in inloop])
         ctx.check(not bypass, "R09.3", f, d, "skipped predecessors are decoded and discarded before a member is delivered",
                   "a selected member can be decoded without first decoding-and-discarding the unselected members before it in the solid stream")
+    # nothing is decoded for a member that has no stream: the in-loop check stands under `not <member>.emptystream`.  Otherwise selecting an EMPTY file
+    # decodes (and may fail on) every unselected member in front of it - `extract(targets=['marker.empty'])` on an encrypted archive raises
+    # PasswordRequired after the early check had found that this selection needs no password
+    for c in inloop:
+        ok = any((not pol) and isinstance(cd, ast.Attribute) and cd.attr == "emptystream" for cd, pol in q.facts_at(f, c))
+        ctx.check(ok, "R09.9", f, c, "unselected predecessors are decoded only on the way to a member that has a stream",
+                  "Worker._extract_single decodes the unselected members in front of EVERY selected member, also of one without a stream: `extract(targets=[<empty file>])` needs the "
+                  "password (or a supported method) of data it does not deliver, fails in the middle of the extraction and does not create the empty file", construct="skip-decode for empty member")
     # the accumulator is emptied right after the check, before the next iteration
     resets = [n for n in walk(lp) if isinstance(n, ast.Assign) and norm(n.targets[0]) == acc and isinstance(n.value, ast.List) and not n.value.elts]
     for c in inloop:
